@@ -245,3 +245,24 @@ def charts():
         c.name = f.__name__
         out.append(c)
     return out
+
+
+def d_delayed():
+    # a delayed <send> is held by the delay queue until its timer fires; it is not in the external queue before
+    a = State(name="a", onentry=[[send("d", delay=20), send("now")]], trans=[T("d", ["b"]), T("now", [])])
+    b = State(name="b", onentry=[[send("d2", delay=20)]], trans=[T("d2", ["c"]), T("e", ["a"])])
+    c = State(name="c", trans=[T("e", ["a"])])
+    return Chart(Scxml(a, b, c), tags=["delayed"])
+
+
+def d_delayed_two():
+    # two delayed events pending at once, one sent from a transition; the machine finishes on the second
+    a = State(name="a", onentry=[[send("d1", delay=15)]], trans=[T("e", ["b"], content=[send("d2", delay=40)]), T("d1", [])])
+    b = State(name="b", trans=[T("d1", []), T("d2", ["fin"])])
+    fin = Final(name="fin")
+    return Chart(Scxml(a, b, fin), tags=["delayed"])
+
+
+ALL += [d_delayed, d_delayed_two]
+WORDS["d_delayed"] = [["e"], ["e", "e"]]
+WORDS["d_delayed_two"] = [["e"], ["e", "e"]]
